@@ -97,8 +97,11 @@ def getattr_(ex, st, base, attr, node=None):
                 yield st, Const("func", ci.methods[attr])
                 return
             raise _U(f"class attr {ci.name}.{attr}")
-        if k == "type":
-            # int.from_bytes, dict.fromkeys ...
+        if k == "libdate" and attr == "toordinal":
+            yield st, Const("libdate.toordinal", base.val)
+            return
+        if k in ("type", "exttype"):
+            # int.from_bytes, dict.fromkeys, date.fromordinal ...
             yield st, Const("ext", f"{base.val}.{attr}")
             return
         if k == "ext":
@@ -115,7 +118,7 @@ def getattr_(ex, st, base, attr, node=None):
             return
         raise _U(f"attribute {attr} of {base}")
     base = ex.narrow(st, base)
-    if base.ty == "obj":
+    if (base.ty == "obj" and attr not in ("toordinal",)) or (base.ty == "py" and attr in eng.OBJ_ATTRS):
         yield from eng.obj_attr(ex, st, base, attr)
         return
     # data method: remember the receiver expression for write-back of mutators
